@@ -13,7 +13,7 @@ Rec == ndJsonDeserialize(IOEnv.TRACE)
 VARIABLES ri, j, verdict
 
 CallChoices(r) == {<<"args_os", 0>>}
-              \cup {<<"var_unix", i>> : i \in 1..Len(r.look)}
+              \cup {<<"var_unix", i>> : i \in {x \in 1..Len(r.look) : r.look[x].varu.k # "skipped"}}
               \cup {<<"var", i>> : i \in {x \in 1..Len(r.look) : r.look[x].var.k # "skipped"}}
 InitT ==
     /\ ri \in 1..Len(Rec)
